@@ -59,6 +59,8 @@ type Service struct {
 
 	templateSets   map[string]*pongo2.TemplateSet
 	templateSetsMu sync.Mutex
+
+	runNumberMu sync.Mutex // protects the read-increment-write of the file-backed run counter
 }
 
 func NewService(uri string) (svc *Service, err error) {
@@ -73,7 +75,10 @@ func (s *Service) NewRunNumber() (runNumber uint32, err error) {
 	if cSrc, ok := s.src.(*cfgbackend.ConsulSource); ok {
 		return cSrc.GetNextUInt32(filepath.Join(getConsulRuntimePrefix(), "run_number"))
 	} else {
-		// Unsafe check-and-set, only for file backend
+		// No check-and-set with the file backend, so we serialize the read-increment-write
+		s.runNumberMu.Lock()
+		defer s.runNumberMu.Unlock()
+
 		var rnf string
 		rnf = filepath.Join(viper.GetString("coreWorkingDir"), "runcounter.txt")
 		if _, err = os.Stat(rnf); os.IsNotExist(err) {
